@@ -209,6 +209,26 @@ def main() -> None:
         run.fail(sig, swhy or why, {"case": name, "source": stext, "original_source": texts[i],
                             "compiled_ops": sres.get("ops"), "equiv": {k: v for k, v in seq.items() if k not in ("g1", "g2")},
                             "graphs": {"source": seq.get("g1"), "compiled": seq.get("g2")}})
+    # recorded finding (known_findings.json, DESIGN.md section 6): a jump-like statement in a with-block directly before its
+    # label, or with the end of the routine as its target - the two witnesses run on every invocation and are matched by name
+    witnesses = [
+        ("with-block jump: break to the end of the routine",
+         "def 0 {\n    switch (0) {\n        case 0:\n            with (performer 1) {\n                break;\n            }\n    }\n}\n"),
+        ("with-block jump: jump to the label that follows",
+         "def 0 {\n    with (actor 2) {\n        jump @a;\n    }\n    @a;\n    end;\n}\n"),
+    ]
+    wel = run_impl([("lang:parse_and_elab", t) for _, t in witnesses])
+    wres = run_impl([("compile", t) for _, t in witnesses])
+    for (wname, wtext), el, res in zip(witnesses, wel, wres):
+        run.case(["witness", wtext], nontrivial=True)
+        if not el.get("ok") or not res["ok"]:
+            run.count("finding witness:not compiled")
+            continue
+        weq = run_driver([[A("equiv"), src_side(el["ast"]), ssb_side(res["ops"])]], nproc=1)[0]
+        wwhy = judge(el["ast"], res, weq)
+        run.count("finding witness:" + ("passes" if wwhy is None else "fails"))
+        if wwhy is not None:
+            run.fail(wname, wwhy, {"case": wname, "source": wtext, "compiled_ops": res["ops"]})
     run.assume("source semantics = Lang/SrcSem.v (cfg_of_prog) read off docs/language_spec.rst; machine = Ssb/Machine.v")
     run.assume("text -> AST by the real ANTLR parser + harness/lang.py elaboration (cross-checked: elab(parse(print(ast))) = ast)")
     run.finish(rule="G_prog random programs (seeded) + named shapes, compiled by the real compiler; non-trivial = at least 2 "
